@@ -366,3 +366,8 @@ package orb
 // the winding of a ring is a deterministic function of its vertices (callable in contracts)
 //@ func (Ring).Orientation(r)
 //@   function
+
+// a ring is closed when it has at least four vertices and the last repeats the first
+//@ func (Ring).Closed(r)
+//@   function
+//@   ensures result ==> len(r) >= 4
